@@ -75,6 +75,7 @@ def run_failing(scen: dict, sched: list[dict], storage, entry: str, fail: dict) 
         else:
             evs, res = out["r"]
             snap = snapshot_obs(out["pl"], pdesc, fail, tmp) if entry in ("seq", "map", "async") else {}
+            put_snapshot(evs, snap)
     finally:
         build.GATE = None
         shutil.rmtree(tmp, ignore_errors=True)
@@ -106,6 +107,58 @@ def do_map_async_fail(pl, pdesc, inp, run_folder, storage, executor, settle):
     events += pmap.log_events(start)
     events.append(pmap.ev(e="return", results=pmap.results_json(res)))
     return events, res
+
+
+def put_snapshot(evs: list[dict], snap: dict) -> None:
+    """The ErrorSnapshot observation becomes part of the raise event (TraceMapRun.TRaise judges it)."""
+    if snap and evs and evs[-1]["e"] == "raise":
+        if "error" in snap:
+            evs[-1]["repro"] = evs[-1]["repro_loaded"] = ["<snapshot error: " + snap["error"][:80] + ">", []]
+        elif not snap.get("has"):
+            evs[-1]["repro"] = evs[-1]["repro_loaded"] = ["<no snapshot>", []]
+        else:
+            evs[-1]["repro"] = snap["repro"]
+            evs[-1]["repro_loaded"] = snap["repro_loaded"]
+
+
+def two_failures(storage: str, entry: str, cls: str, args: list, shared: bool) -> dict:
+    """Two failing maps on ONE pipeline object (other inputs the second time): the second failure must be attributed to ITS
+    invocation and the ErrorSnapshot must be the second one's.  The exception's args name the failing kwargs; with
+    `shared` the user function raises one pre-built exception instance both times."""
+    def fn(name, params, outs, ins_, outs_):
+        return {"name": name, "params": params, "outputs": outs, "defaults": [], "bound": [], "has_ms": True,
+                "ms": {"ins": [{"name": n, "axes": ["i"]} for n in ins_], "outs": [{"name": n, "axes": ["i"]} for n in outs_]},
+                "internal": [], "cache": False}
+    desc = {"funcs": [fn("f", ["a"], ["y"], ["a"], ["y"]), fn("g", ["y"], ["w"], ["y"], ["w"])]}
+    arr = lambda vs: {"f": "#arr", "a": [{"f": v, "a": []} for v in vs]}   # noqa: E731
+    in1, in2 = [["a", arr(["@p", "@q", "@r"])]], [["a", arr(["@s", "@t", "@u"])]]
+    pdesc = pmap.tla_desc_to_py(desc)
+    fail = {"f": "f", "cls": cls, "args": args}
+    pdesc["funcs"][0]["fail"] = {"when": [{"a": {"f": "@q", "a": []}}, {"a": {"f": "@t", "a": []}}], "cls": cls, "args": args,
+                                 "argskw": True, "shared": shared}
+    build.reset_log()
+    tmp = tempfile.mkdtemp(prefix="pfverif_c13t_")
+    ex = ThreadPoolExecutor(3) if entry == "thread" else None
+    evs: list[dict] = []
+    try:
+        with contextlib.redirect_stdout(io.StringIO()):
+            pl = build.make_pipeline(pdesc)
+        for run, inputs in enumerate((in1, in2)):
+            e, res = pmap.do_map(pl, pdesc, pmap.inputs_to_py(inputs, {"a": "list"}), run_folder=f"{tmp}/r{run}", storage=storage,
+                                 parallel=ex is not None, executor=ex, cleanup=True, load=False)
+            if run:
+                for x in e:
+                    if x["e"] in ("begin", "reject"):
+                        x["new_inputs"] = inputs
+            if isinstance(res, Exception):
+                put_snapshot(e, snapshot_obs(pl, pdesc, fail, tmp))
+            evs += e
+    finally:
+        if ex is not None:
+            ex.shutdown(wait=True)
+        shutil.rmtree(tmp, ignore_errors=True)
+    return {"desc": desc, "inputs": in1, "ev": evs, "storage": storage, "entry": entry + "-twice", "followed": True, "stuck": "",
+            "script": [], "snap": {}, "hang": False}
 
 
 def snapshot_obs(pl, pdesc: dict, fail: dict, tmp: str) -> dict:
@@ -212,15 +265,6 @@ def validate(ctx: Ctx, traces: list[dict], name: str, fails: list[dict]) -> None
                           f"the failing run did not follow the TLC schedule: {t['stuck']}",
                           {"desc": t["desc"], "inputs": t["inputs"], "script": t["script"], "fail": fl,
                            "recorded": [(e["e"], e["f"]) for e in t["ev"]]})
-        s = t["snap"]
-        if s:
-            want = [fl["cls"], [str(a) for a in fl["args"]]]
-            bad = [k for k in ("repro", "repro_loaded") if s.get(k) != want]
-            if not s.get("has") or bad or "error" in s:
-                ctx.violation({"check": "error-snapshot", "entry": t["entry"], "missing": not s.get("has"), "bad": bad,
-                               "cls": fl["cls"]},
-                              f"ErrorSnapshot does not reproduce the failure: {s} (wanted {want})",
-                              {"desc": t["desc"], "inputs": t["inputs"], "fail": fl, "snap": s})
     rej = validate_traces(ctx, "TraceMapRun", traces, name, invariants=["InvTypeOK", "InvDoneStored"], strip=STRIP, chunk=200)
     for i, reached in rej.items():
         t = traces[i]
@@ -229,13 +273,15 @@ def validate(ctx: Ctx, traces: list[dict], name: str, fails: list[dict]) -> None
         e = t["ev"][reached - 1]
         clause = "surface"
         if e["e"] == "raise":
-            f0 = next((x for x in t["ev"] if x["e"] == "fail"), None)
+            f0 = next((x for x in reversed(t["ev"][:reached]) if x["e"] == "fail"), None)
             if f0 and e["cls"] != f0["cls"]:
                 clause = "retyped"
             elif f0 and e["args"] != f0["args"]:
                 clause = "args-changed"
             elif not e["attributed"]:
                 clause = "not-attributed"
+            elif f0 and any(e[k][0] != "" and e[k] != [f0["cls"], f0["args"]] for k in ("repro", "repro_loaded")):
+                clause = "snapshot"
             else:
                 clause = "loadable-or-pending"
         ctx.violation({"check": "fail-run", "event": e["e"], "clause": clause, "entry": t["entry"], "storage": str(t["storage"]),
@@ -311,6 +357,14 @@ def run(ctx: Ctx) -> None:
         ptraces.append(run_pool_fail(tg, c03.STORAGES[k % 3], "thread", fl, ctx.seed * 100 + 50 + k, per_output=True))
         pfails.append(fl)
         ctx.case({"pool": "per-output", "fl": fl, "k": k})
+    # two failures on one pipeline object
+    for k, (st, en) in enumerate([("dict", "seq"), ("file_array", "thread"), ("file_array", "seq"), ("shared_memory_dict", "thread")]
+                                 if quick else [(st, en) for st in c03.STORAGES for en in ("seq", "thread")]):
+        for shared in (False, True):
+            cls, args = EXC_KINDS[(k + shared) % len(EXC_KINDS)]
+            ptraces.append(two_failures(st, en, cls, list(args), shared))
+            pfails.append({"f": "f", "when": "two", "cls": cls, "args": list(args), "shared": shared})
+            ctx.case({"twice": en, "st": st, "cls": cls, "shared": shared}, nontrivial=True)
     validate(ctx, ptraces, "pools", pfails)
     ctx.exhaustive = False
 
